@@ -414,18 +414,18 @@ Section Live.
 
   (** First half: the receiver takes the window (ignoring the blocks it already holds) and
       acknowledges it; then the sender discards the repeated ACKs that were queued before. *)
-  Lemma half_a : forall s r a r0 j0 stale hist n1 n2 tail, SS s a r0 -> RS hist r (a + j0) j0 -> j0 < wlen s ->
+  Lemma half_a : forall s r a r0 j0 stale hist n1 n2 tail h2, SS s a r0 -> RS hist r (a + j0) j0 -> j0 < wlen s ->
     chan_puts f_rs (mk_chan (repeat (ack_dgram a) stale) None n2) [ack_dgram (a + wlen s)] =
-      mk_chan (repeat (ack_dgram a) stale ++ tail) None (n2 + 1) ->
+      mk_chan (repeat (ack_dgram a) stale ++ tail) h2 (n2 + 1) ->
     exists s' r',
       run (N.to_nat (wlen s) + stale) (mk_pair s r (mk_chan (datas (a + 1) (N.to_nat (wlen s))) None n1)
                                                (mk_chan (repeat (ack_dgram a) stale) None n2)) =
-        mk_pair s' r' (mk_chan [] None n1) (mk_chan tail None (n2 + 1)) /\
+        mk_pair s' r' (mk_chan [] None n1) (mk_chan tail h2 (n2 + 1)) /\
       SS s' a r0 /\ wlen s' = wlen s /\
       if a + wlen s =? nb then r_phase r' = RDone OutOk /\ written_bytes (w_file (r_w r')) = F
       else exists hist', RS hist' r' (a + wlen s) 0.
   Proof.
-    intros s r a r0 j0 stale hist n1 n2 tail Hss Hrs Hj Hput.
+    intros s r a r0 j0 stale hist n1 n2 tail h2 Hss Hrs Hj Hput.
     pose proof (SS_len _ _ _ Hss) as (Ha & Hlen & Hpos). set (m := wlen s) in *.
     set (j0' := N.to_nat j0). set (n' := N.to_nat (m - j0)).
     replace (N.to_nat m + stale)%nat with (j0' + (n' + stale))%nat by (unfold j0', n'; lia).
@@ -447,7 +447,7 @@ Section Live.
     rewrite Hrun2. replace (a + j0 + N.of_nat n') with (a + m) in * by (unfold n'; lia).
     rewrite Hput.
     (* the sender reads the repeated ACKs *)
-    destruct (drain_stale stale s a r0 r2 None n1 tail None (n2 + 1) Hss) as (s' & Hrun3 & Hss' & Hl').
+    destruct (drain_stale stale s a r0 r2 None n1 tail h2 (n2 + 1) Hss) as (s' & Hrun3 & Hss' & Hl').
     rewrite Hrun3. exists s', r2. split; [reflexivity|]. split; [exact Hss'|]. split; [exact Hl'|exact Hfin2].
   Qed.
 
@@ -483,7 +483,7 @@ Section Live.
              SS s' (a + wlen s) 0 /\ RS hist' r' (a + wlen s) 0.
   Proof.
     intros s r a r0 j0 stale hist n1 n2 Hss Hrs Hj Hf2. unfold sync_state.
-    destruct (half_a s r a r0 j0 stale hist n1 n2 [ack_dgram (a + wlen s)] Hss Hrs Hj) as (s1 & r1 & Hrun1 & Hss1 & Hl1 & Hfin1).
+    destruct (half_a s r a r0 j0 stale hist n1 n2 [ack_dgram (a + wlen s)] None Hss Hrs Hj) as (s1 & r1 & Hrun1 & Hss1 & Hl1 & Hfin1).
     { rewrite chan_puts_clean; [reflexivity|]. intros i Hi. rewrite lenN_cons, lenN_nil in Hi. replace i with n2 by lia. exact Hf2. }
     exists (N.to_nat (wlen s) + stale + 1)%nat. eexists. split; [reflexivity|].
     rewrite run_add, Hrun1. cbn [pair_run]. rewrite step_send by apply Hss1.
@@ -696,7 +696,7 @@ Section Live.
     unfold sync_state. set (m := wlen s) in *.
     destruct (N.eq_dec i n2) as [->|Hne].
     - (* this round's ACK is the one that is lost *)
-      destruct (half_a s r a 0 0 O hist (n1 + m) n2 [] Hss Hrs0 ltac:(lia)) as (s1 & r1 & Hrun1 & Hss1 & Hl1 & Hfin1).
+      destruct (half_a s r a 0 0 O hist (n1 + m) n2 [] None Hss Hrs0 ltac:(lia)) as (s1 & r1 & Hrun1 & Hss1 & Hl1 & Hfin1).
       { cbn [repeat app]. apply chan_puts_drop. exact Hd. }
       fold m in Hrun1, Hfin1, Hl1. cbn [repeat] in Hrun1 |- *.
       destruct (N.eqb_spec (a + m) nb) as [Hlast|Hnot].
@@ -794,7 +794,7 @@ Section Live.
              SS s' (a + wlen s) 0 /\ RS hist' r' (a + wlen s) 0.
   Proof.
     intros s r a r0 j0 stale hist n1 n2 Hss Hrs Hj Hf2. unfold sync_state.
-    destruct (half_a s r a r0 j0 stale hist n1 n2 [ack_dgram (a + wlen s); ack_dgram (a + wlen s)] Hss Hrs Hj)
+    destruct (half_a s r a r0 j0 stale hist n1 n2 [ack_dgram (a + wlen s); ack_dgram (a + wlen s)] None Hss Hrs Hj)
       as (s1 & r1 & Hrun1 & Hss1 & Hl1 & Hfin1).
     { apply chan_puts_dup. exact Hf2. }
     rewrite <- Hl1 in Hfin1, Hrun1.
@@ -1006,6 +1006,334 @@ Section Live.
           as (fuel2 & Hfin); [intros j Hj; apply Hc2; lia|lia|].
         exists (fuel1 + fuel2)%nat. rewrite run_add, Hrun1. exact Hfin.
   Qed.
+
+  (** ** One datagram held back and released behind its successor (reordering) *)
+
+  Definition one_hold (fs : list (N * fault)) (i : N) : Prop :=
+    fault_at fs i = NfHold /\ forall k, k <> i -> fault_at fs k = NfDeliver.
+
+  Lemma chan_puts_hold : forall fs d q n, fault_at fs n = NfHold ->
+    chan_puts fs (mk_chan q None n) [d] = mk_chan q (Some d) (n + 1).
+  Proof. intros fs d q n H. unfold chan_puts. cbn [fold_left]. unfold chan_put. cbn [ch_n ch_held ch_q]. rewrite H. reflexivity. Qed.
+
+  Lemma chan_puts_release : forall fs d ds h q n, clean fs n (n + lenN (d :: ds)) ->
+    chan_puts fs (mk_chan q (Some h) n) (d :: ds) = mk_chan (q ++ d :: h :: ds) None (n + lenN (d :: ds)).
+  Proof.
+    intros fs d ds h q n Hc. rewrite chan_puts_cons. unfold chan_put at 1. cbn [ch_n ch_held ch_q].
+    rewrite (Hc n) by (rewrite lenN_cons; lia). rewrite chan_puts_clean.
+    - rewrite <- !app_assoc, lenN_cons. cbn [app]. f_equal. lia.
+    - intros i Hi. apply Hc. rewrite lenN_cons. lia.
+  Qed.
+
+  (** The window emitted with its [g]-th datagram held: inside the window it comes out behind its successor. *)
+  Lemma emit_hold_mid : forall s r a n1 n2 stale g, N.of_nat g + 1 < wlen s ->
+    clean f_sr n1 (n1 + N.of_nat g) -> fault_at f_sr (n1 + N.of_nat g) = NfHold ->
+    clean f_sr (n1 + N.of_nat g + 1) (n1 + wlen s) ->
+    emit_state s r a n1 n2 stale =
+      mk_pair s r (mk_chan (datas (a + 1) g ++ data_dgram blk F (a + 1 + N.of_nat g + 1) :: data_dgram blk F (a + 1 + N.of_nat g) ::
+                            datas (a + N.of_nat g + 3) (N.to_nat (wlen s) - g - 2)) None (n1 + wlen s))
+              (mk_chan (repeat (ack_dgram a) stale) None n2).
+  Proof.
+    intros s r a n1 n2 stale g Hg Hc1 Hd Hc2. unfold emit_state. f_equal.
+    replace (N.to_nat (wlen s)) with (g + (1 + (1 + (N.to_nat (wlen s) - g - 2))))%nat at 1 by lia.
+    rewrite !datas_app, !chan_puts_app. rewrite chan_puts_clean by (unfold lenN; rewrite datas_length; exact Hc1).
+    unfold lenN at 1. rewrite datas_length. cbn [datas app]. rewrite chan_puts_hold by exact Hd.
+    rewrite chan_puts_release by (intros i Hi; apply Hc2; rewrite lenN_cons, lenN_nil in Hi; lia).
+    rewrite chan_puts_clean.
+    - rewrite lenN_cons, lenN_nil. unfold lenN. rewrite datas_length. rewrite <- !app_assoc. cbn [app]. f_equal; [|lia].
+      replace (a + 1 + N.of_nat g + N.of_nat 1) with (a + 1 + N.of_nat g + 1) by lia.
+      replace (a + 1 + N.of_nat g + 1 + N.of_nat 1) with (a + N.of_nat g + 3) by lia. reflexivity.
+    - rewrite lenN_cons, lenN_nil. unfold lenN. rewrite datas_length. intros i Hi. apply Hc2. lia.
+  Qed.
+
+  (** ... as the last datagram of the window it stays held until something else is sent. *)
+  Lemma emit_hold_last : forall s r a n1 n2 stale, clean f_sr n1 (n1 + wlen s - 1) ->
+    fault_at f_sr (n1 + wlen s - 1) = NfHold -> 1 <= wlen s ->
+    emit_state s r a n1 n2 stale =
+      mk_pair s r (mk_chan (datas (a + 1) (N.to_nat (wlen s) - 1)) (Some (data_dgram blk F (a + wlen s))) (n1 + wlen s))
+              (mk_chan (repeat (ack_dgram a) stale) None n2).
+  Proof.
+    intros s r a n1 n2 stale Hc1 Hd Hpos. unfold emit_state. f_equal.
+    replace (N.to_nat (wlen s)) with ((N.to_nat (wlen s) - 1) + 1)%nat at 1 by lia.
+    rewrite datas_app, chan_puts_app. rewrite chan_puts_clean by (unfold lenN; rewrite datas_length; intros i Hi; apply Hc1; lia).
+    unfold lenN. rewrite datas_length. cbn [datas app].
+    rewrite chan_puts_hold by (replace (n1 + N.of_nat (N.to_nat (wlen s) - 1)) with (n1 + wlen s - 1) by lia; exact Hd).
+    f_equal; [f_equal; f_equal; lia|lia].
+  Qed.
+
+  (** Recovery from a swap inside the window: the receiver takes the blocks before it, skips the
+      one that came too early, takes the late one, ignores the rest; silence; the window goes out again. *)
+  Lemma swap_recovery : forall s r a stale hist n1 n2 g, SS s a 0 -> RS hist r a 0 -> N.of_nat g + 1 < wlen s ->
+    clean_from f_sr n1 -> clean_from f_rs n2 ->
+    exists fuel s' r' hist' n2',
+      run fuel (mk_pair s r (mk_chan (datas (a + 1) g ++ data_dgram blk F (a + 1 + N.of_nat g + 1) :: data_dgram blk F (a + 1 + N.of_nat g) ::
+                                      datas (a + N.of_nat g + 3) (N.to_nat (wlen s) - g - 2)) None n1)
+                        (mk_chan (repeat (ack_dgram a) stale) None n2)) =
+        sync_state s' r' a (n1 + wlen s') n2' 0 /\
+      SS s' a 1 /\ RS hist' r' (a + N.of_nat (g + 1)) (N.of_nat (g + 1)) /\ N.of_nat (g + 1) < wlen s' /\ n2 <= n2'.
+  Proof.
+    intros s r a stale hist n1 n2 g Hss Hrs Hg Hc1 Hc2.
+    pose proof (SS_len _ _ _ Hss) as (Ha & Hlen & Hpos). set (m := wlen s) in *.
+    set (rest := (N.to_nat m - g - 2)%nat). pose proof Hwf as (_ & _ & Hw).
+    set (dlate := data_dgram blk F (a + 1 + N.of_nat g)). set (dearly := data_dgram blk F (a + 1 + N.of_nat g + 1)).
+    (* 1. the blocks before the swap are buffered *)
+    destruct (drain_buffer g hist r a 0 s (dearly :: dlate :: datas (a + N.of_nat g + 3) rest) None n1
+                (mk_chan (repeat (ack_dgram a) stale) None n2) Hrs ltac:(lia) ltac:(lia)) as (r1 & hist1 & Hrun1 & Hrs1).
+    (* 2. the successor comes first: out of sequence *)
+    destruct (drain_out_seq 1 (a + 1 + N.of_nat g + 1) hist1 r1 (a + N.of_nat g) (0 + N.of_nat g) s
+                (dlate :: datas (a + N.of_nat g + 3) rest) None n1 (mk_chan (repeat (ack_dgram a) stale) None n2) Hrs1)
+      as (r2 & hist2 & Hrun2 & Hrs2).
+    { intros i Hi. lia. }
+    cbn [datas app] in Hrun2. fold dearly in Hrun2.
+    set (extra := if 0 + N.of_nat g =? 0 then 1%nat else O).
+    assert (Hq : chan_puts f_rs (mk_chan (repeat (ack_dgram a) stale) None n2)
+                   (if 0 + N.of_nat g =? 0 then repeat (ack_dgram (a + N.of_nat g)) 1 else []) =
+                 mk_chan (repeat (ack_dgram a) (stale + extra)) None (n2 + N.of_nat extra)).
+    { unfold extra. destruct (N.eqb_spec (0 + N.of_nat g) 0) as [Hz|Hnz].
+      - rewrite chan_puts_clean by (intros i Hi; apply Hc2; lia).
+        replace (a + N.of_nat g) with a by lia. rewrite repeat_app. unfold lenN. rewrite repeat_length. reflexivity.
+      - change (chan_puts f_rs ?c []) with c. rewrite Nat.add_0_r, N.add_0_r. reflexivity. }
+    rewrite Hq in Hrun2.
+    (* 3. the late one is in sequence now *)
+    destruct (drain_buffer 1 hist2 r2 (a + N.of_nat g) (0 + N.of_nat g) s (datas (a + N.of_nat g + 3) rest) None n1
+                (mk_chan (repeat (ack_dgram a) (stale + extra)) None (n2 + N.of_nat extra)) Hrs2 ltac:(lia) ltac:(lia))
+      as (r3 & hist3 & Hrun3 & Hrs3).
+    cbn [datas app] in Hrun3. replace (a + N.of_nat g + 1) with (a + 1 + N.of_nat g) in Hrun3 by lia. fold dlate in Hrun3.
+    (* 4. what follows is out of sequence, with blocks buffered: ignored *)
+    destruct (drain_out_seq rest (a + N.of_nat g + 3) hist3 r3 (a + N.of_nat g + N.of_nat 1) (0 + N.of_nat g + N.of_nat 1) s [] None n1
+                (mk_chan (repeat (ack_dgram a) (stale + extra)) None (n2 + N.of_nat extra)) Hrs3) as (r4 & hist4 & Hrun4 & Hrs4).
+    { intros i Hi. unfold rest in Hi. lia. }
+    rewrite app_nil_r in Hrun4.
+    replace (0 + N.of_nat g + N.of_nat 1 =? 0) with false in Hrun4 by lia.
+    change (chan_puts f_rs ?c []) with c in Hrun4.
+    (* 5. the sender reads the repeated ACK, if any; silence; the timer fires *)
+    destruct (drain_stale (stale + extra) s a 0 r4 None n1 [] None (n2 + N.of_nat extra) Hss) as (s5 & Hrun5 & Hss5 & Hl5).
+    rewrite app_nil_r in Hrun5.
+    destruct (send_retx s5 a 0 Hss5 one_retry) as (s6 & out & E6 & Hss6 & Hl6 & Hout6).
+    exists (g + (1 + (1 + (rest + ((stale + extra) + 1)))))%nat, s6, r4, hist4, (n2 + N.of_nat extra).
+    split; [|split; [exact Hss6|split; [|split; [rewrite Hl6, Hl5; fold m; lia|lia]]]].
+    - rewrite run_add, Hrun1, run_add, Hrun2, run_add, Hrun3, run_add, Hrun4, run_add, Hrun5.
+      cbn [pair_run]. rewrite step_tmo by apply Hss5. rewrite E6. cbn [fst snd].
+      rewrite Hout6. unfold sync_state. rewrite chan_puts_clean by (intros i Hi; apply Hc1; lia).
+      cbn [app repeat]. unfold lenN. rewrite datas_length, N2Nat.id, Hl6. reflexivity.
+    - replace (a + N.of_nat (g + 1)) with (a + N.of_nat g + N.of_nat 1) by lia.
+      replace (N.of_nat (g + 1)) with (0 + N.of_nat g + N.of_nat 1) by lia. exact Hrs4.
+  Qed.
+
+  (** The last datagram of a window held: the receiver buffers the others and waits; the timer
+      fires; the first datagram of the retransmission releases the held one. *)
+  Lemma hold_last_recovery : forall s r a stale hist n1 n2, SS s a 0 -> RS hist r a 0 ->
+    clean_from f_sr n1 -> clean_from f_rs n2 ->
+    exists fuel p',
+      run fuel (mk_pair s r (mk_chan (datas (a + 1) (N.to_nat (wlen s) - 1)) (Some (data_dgram blk F (a + wlen s))) n1)
+                        (mk_chan (repeat (ack_dgram a) stale) None n2)) = p' /\
+      if a + wlen s =? nb then Final p'
+      else exists s' r' hist' x n1' n2', p' = emit_state s' r' (a + wlen s) n1' n2' x /\
+             SS s' (a + wlen s) 0 /\ RS hist' r' (a + wlen s) 0 /\ n1 <= n1' /\ n2 <= n2'.
+  Proof.
+    intros s r a stale hist n1 n2 Hss Hrs Hc1 Hc2.
+    pose proof (SS_len _ _ _ Hss) as (Ha & Hlen & Hpos). set (m := wlen s) in *.
+    pose proof Hwf as (_ & _ & Hw). set (dl := data_dgram blk F (a + m)).
+    (* 1. the other blocks of the window are buffered *)
+    destruct (drain_buffer (N.to_nat m - 1) hist r a 0 s [] (Some dl) n1 (mk_chan (repeat (ack_dgram a) stale) None n2) Hrs
+                ltac:(lia) ltac:(lia)) as (r1 & hist1 & Hrun1 & Hrs1).
+    rewrite app_nil_r in Hrun1.
+    (* 2. the sender reads the repeated ACKs; silence; the timer fires; the retransmission releases the held datagram *)
+    destruct (drain_stale stale s a 0 r1 (Some dl) n1 [] None n2 Hss) as (s2 & Hrun2 & Hss2 & Hl2).
+    rewrite app_nil_r in Hrun2.
+    destruct (send_retx s2 a 0 Hss2 one_retry) as (s3 & out & E3 & Hss3 & Hl3 & Hout3).
+    assert (Hm3 : wlen s3 = m) by (rewrite Hl3; exact Hl2).
+    assert (Hrun3 : run (N.to_nat m - 1 + (stale + 1))
+                      (mk_pair s r (mk_chan (datas (a + 1) (N.to_nat m - 1)) (Some dl) n1) (mk_chan (repeat (ack_dgram a) stale) None n2)) =
+                    mk_pair s3 r1 (mk_chan (data_dgram blk F (a + 1) :: dl :: datas (a + 1 + 1) (N.to_nat m - 1)) None (n1 + m))
+                            (mk_chan [] None n2)).
+    { rewrite run_add, Hrun1, run_add, Hrun2. cbn [pair_run]. rewrite step_tmo by apply Hss2. rewrite E3. cbn [fst snd].
+      rewrite Hout3, Hl2. fold m.
+      replace (datas (a + 1) (N.to_nat m)) with (data_dgram blk F (a + 1) :: datas (a + 1 + 1) (N.to_nat m - 1))
+        by (replace (N.to_nat m) with (S (N.to_nat m - 1)) at 2 by lia; reflexivity).
+      rewrite chan_puts_release by (intros i Hi; apply Hc1; lia). cbn [app]. rewrite lenN_cons. unfold lenN. rewrite datas_length.
+      f_equal. f_equal. lia. }
+    assert (Hclean1 : forall q, chan_puts f_rs (mk_chan q None n2) [ack_dgram (a + m)] = mk_chan (q ++ [ack_dgram (a + m)]) None (n2 + 1)).
+    { intros q. rewrite chan_puts_clean; [reflexivity|]. intros i Hi. apply Hc2. lia. }
+    destruct (N.eq_dec m 1) as [Hone|Hmore].
+    - (* a window of one block: the retransmission and the released copy are the same block *)
+      replace (N.to_nat m - 1)%nat with O in * by lia. cbn [datas] in Hrun3.
+      replace (N.of_nat 0) with 0 in Hrs1 by reflexivity. replace (a + 0) with a in Hrs1 by lia. replace (0 + 0) with 0 in Hrs1 by lia.
+      assert (Hdl : dl = data_dgram blk F (a + 1)) by (unfold dl; rewrite Hone; reflexivity).
+      destruct (drain_in_seq 1 hist1 r1 a 0 s3 [dl] None (n1 + m) (mk_chan [] None n2) Hrs1) as (r4 & Hrun4 & Hfin4); try lia.
+      cbn [datas app] in Hrun4. replace (a + N.of_nat 1) with (a + m) in * by lia. rewrite Hclean1 in Hrun4. cbn [app] in Hrun4.
+      destruct (N.eqb_spec (a + m) nb) as [Hlast|Hnot].
+      + exists (N.to_nat m - 1 + (stale + 1) + (1 + (0 + 1)))%nat. eexists. split; [reflexivity|].
+        replace (N.to_nat m - 1)%nat with O by lia. cbn [datas]. rewrite run_add, Hrun3, run_add, Hrun4.
+        destruct Hfin4 as [Hp Hfile]. rewrite <- Hm3 in Hlast |- *.
+        apply (finish_with_leftover s3 r4 a (0 + 1) O _ _ Hss3 Hlast Hp Hfile).
+      + destruct Hfin4 as [hist4 Hrs4]. replace (a + m) with (a + m + 0) in Hrs4 by lia.
+        destruct (drain_out_seq 1 (a + 1) hist4 r4 (a + m + 0) 0 s3 [] None (n1 + m) (mk_chan [ack_dgram (a + m)] None (n2 + 1)) Hrs4)
+          as (r5 & hist5 & Hrun5 & Hrs5).
+        { intros i Hi. lia. }
+        cbn [datas app] in Hrun5. rewrite <- Hdl in Hrun5. change (0 =? 0) with true in Hrun5. cbv iota in Hrun5.
+        replace (a + m + 0) with (a + m) in * by lia.
+        rewrite chan_puts_clean in Hrun5 by (intros i Hi; apply Hc2; lia). cbn [repeat app] in Hrun5.
+        rewrite lenN_cons, lenN_nil in Hrun5.
+        destruct (half_b s3 r5 a (0 + 1) O 1 (n1 + m) (n2 + 1 + (0 + 1)) Hss3) as (p' & Hrun6 & Hres).
+        { rewrite Hm3. destruct (N.eqb_spec (a + m) nb); [contradiction|]. exists hist5. exact Hrs5. }
+        rewrite Hm3 in Hrun6, Hres. cbn [repeat app] in Hrun6.
+        exists (N.to_nat m - 1 + (stale + 1) + (1 + (1 + (0 + 1))))%nat, p'.
+        split; [replace (N.to_nat m - 1)%nat with O by lia; cbn [datas]; rewrite run_add, Hrun3, run_add, Hrun4, run_add, Hrun5; exact Hrun6|].
+        destruct (N.eqb_spec (a + m) nb); [contradiction|]. destruct Hres as (s' & hist' & Hp' & Hss' & Hrs').
+        exists s', r5, hist', 1%nat, (n1 + m), (n2 + 1 + (0 + 1)).
+        split; [exact Hp'|]. split; [exact Hss'|]. split; [exact Hrs'|lia].
+    - (* two or more blocks: the first retransmitted block is ignored, the released one completes the window *)
+      replace (N.of_nat (N.to_nat m - 1)) with (m - 1) in Hrs1 by lia.
+      destruct (drain_out_seq 1 (a + 1) hist1 r1 (a + (m - 1)) (0 + (m - 1)) s3 (dl :: datas (a + 1 + 1) (N.to_nat m - 1)) None (n1 + m)
+                  (mk_chan [] None n2) Hrs1) as (r4 & hist4 & Hrun4 & Hrs4).
+      { intros i Hi. lia. }
+      cbn [datas app] in Hrun4. replace (0 + (m - 1) =? 0) with false in Hrun4 by lia.
+      change (chan_puts f_rs ?c []) with c in Hrun4.
+      destruct (drain_in_seq 1 hist4 r4 (a + (m - 1)) (0 + (m - 1)) s3 (datas (a + 1 + 1) (N.to_nat m - 1)) None (n1 + m)
+                  (mk_chan [] None n2) Hrs4) as (r5 & Hrun5 & Hfin5); try lia.
+      cbn [datas app] in Hrun5. replace (a + (m - 1) + 1) with (a + m) in Hrun5 by lia. fold dl in Hrun5.
+      replace (a + (m - 1) + N.of_nat 1) with (a + m) in * by lia. rewrite Hclean1 in Hrun5. cbn [app] in Hrun5.
+      destruct (N.eqb_spec (a + m) nb) as [Hlast|Hnot].
+      + exists (N.to_nat m - 1 + (stale + 1) + (1 + (1 + (0 + 1))))%nat. eexists. split; [reflexivity|].
+        rewrite run_add, Hrun3, run_add, Hrun4, run_add, Hrun5.
+        destruct Hfin5 as [Hp Hfile]. rewrite <- Hm3 in Hlast |- *.
+        apply (finish_with_leftover s3 r5 a (0 + 1) O _ _ Hss3 Hlast Hp Hfile).
+      + destruct Hfin5 as [hist5 Hrs5]. replace (a + m) with (a + m + 0) in Hrs5 by lia.
+        destruct (drain_out_seq (N.to_nat m - 1) (a + 1 + 1) hist5 r5 (a + m + 0) 0 s3 [] None (n1 + m)
+                    (mk_chan [ack_dgram (a + m)] None (n2 + 1)) Hrs5) as (r6 & hist6 & Hrun6 & Hrs6).
+        { intros i Hi. lia. }
+        rewrite app_nil_r in Hrun6. change (0 =? 0) with true in Hrun6. cbv iota in Hrun6.
+        replace (a + m + 0) with (a + m) in * by lia.
+        rewrite chan_puts_clean in Hrun6 by (intros i Hi; apply Hc2; lia). cbn [app] in Hrun6.
+        unfold lenN in Hrun6. rewrite repeat_length in Hrun6.
+        destruct (half_b s3 r6 a (0 + 1) O (N.to_nat m - 1) (n1 + m) (n2 + 1 + N.of_nat (N.to_nat m - 1)) Hss3) as (p' & Hrun7 & Hres).
+        { rewrite Hm3. destruct (N.eqb_spec (a + m) nb); [contradiction|]. exists hist6. exact Hrs6. }
+        rewrite Hm3 in Hrun7, Hres. cbn [repeat app] in Hrun7.
+        exists (N.to_nat m - 1 + (stale + 1) + (1 + (1 + ((N.to_nat m - 1) + (0 + 1)))))%nat, p'.
+        split; [rewrite run_add, Hrun3, run_add, Hrun4, run_add, Hrun5, run_add, Hrun6; exact Hrun7|].
+        destruct (N.eqb_spec (a + m) nb); [contradiction|]. destruct Hres as (s' & hist' & Hp' & Hss' & Hrs').
+        exists s', r6, hist', (N.to_nat m - 1)%nat, (n1 + m), (n2 + 1 + N.of_nat (N.to_nat m - 1)).
+        split; [exact Hp'|]. split; [exact Hss'|]. split; [exact Hrs'|lia].
+  Qed.
+
+  Lemma data_hold_from_emit : forall k s r a hist n1 n2 i, nb - a <= N.of_nat k ->
+    SS s a 0 -> RS hist r a 0 -> one_hold f_sr i -> clean_from f_rs n2 -> n1 <= i ->
+    exists fuel, Final (run fuel (emit_state s r a n1 n2 0)).
+  Proof.
+    intros k. induction k as [|k IH]; intros s r a hist n1 n2 i Hk Hss Hrs [Hd Hother] Hc2 Hi;
+      pose proof (SS_len _ _ _ Hss) as (Ha & Hlen & Hpos); [lia|].
+    destruct (N.lt_ge_cases i (n1 + wlen s)) as [Hin|Hout].
+    - set (g := N.to_nat (i - n1)).
+      destruct (N.lt_ge_cases (N.of_nat g + 1) (wlen s)) as [Hmid|Hlastblk].
+      + (* held inside the window: it comes out behind its successor *)
+        rewrite (emit_hold_mid s r a n1 n2 O g) by
+          (try exact Hmid; try (replace (n1 + N.of_nat g) with i by (unfold g; lia); exact Hd);
+           intros j Hj; apply Hother; unfold g in Hj; lia).
+        destruct (swap_recovery s r a O hist (n1 + wlen s) n2 g Hss Hrs Hmid) as
+          (fuel1 & s' & r' & hist' & n2' & Hrun1 & Hss' & Hrs' & Hg' & Hn2'); try assumption.
+        { intros j Hj. apply Hother. lia. }
+        destruct (perfect_from_sync (S k) s' r' a 1 (N.of_nat (g + 1)) O hist' (n1 + wlen s + wlen s') n2' Hk Hss' Hrs' Hg')
+          as (fuel2 & Hfin).
+        { intros j Hj. apply Hother. lia. }
+        { intros j Hj. apply Hc2. lia. }
+        exists (fuel1 + fuel2)%nat. rewrite run_add, Hrun1. exact Hfin.
+      + (* the last datagram of the window is held *)
+        rewrite (emit_hold_last s r a n1 n2 O) by
+          (try exact Hpos; try (replace (n1 + wlen s - 1) with i by (unfold g in *; lia); exact Hd);
+           intros j Hj; apply Hother; unfold g in *; lia).
+        destruct (hold_last_recovery s r a O hist (n1 + wlen s) n2 Hss Hrs) as (fuel1 & p' & Hrun1 & Hres); try assumption.
+        { intros j Hj. apply Hother. lia. }
+        destruct (N.eqb_spec (a + wlen s) nb) as [Hlast|Hnot].
+        * exists fuel1. rewrite Hrun1. exact Hres.
+        * destruct Hres as (s' & r' & hist' & x & n1' & n2' & -> & Hss' & Hrs' & Hn1' & Hn2').
+          pose proof (SS_len _ _ _ Hss') as (_ & _ & Hpos').
+          rewrite emit_clean in Hrun1 by (intros j Hj; apply Hother; lia).
+          destruct (perfect_from_sync k s' r' (a + wlen s) 0 0 x hist' (n1' + wlen s') n2'
+                      ltac:(lia) Hss' ltac:(replace (a + wlen s + 0) with (a + wlen s) by lia; exact Hrs') ltac:(lia))
+            as (fuel2 & Hfin).
+          { intros j Hj. apply Hother. lia. }
+          { intros j Hj. apply Hc2. lia. }
+          exists (fuel1 + fuel2)%nat. rewrite run_add, Hrun1. exact Hfin.
+    - rewrite emit_clean by (intros j Hj; apply Hother; lia).
+      assert (Hrs0 : RS hist r (a + 0) 0) by (replace (a + 0) with a by lia; exact Hrs).
+      destruct (round_gen s r a 0 0 O hist (n1 + wlen s) n2 Hss Hrs0 ltac:(lia) ltac:(apply Hc2; lia))
+        as (fuel1 & p' & Hrun1 & Hres).
+      destruct (N.eqb_spec (a + wlen s) nb) as [Hlast|Hnot].
+      + exists fuel1. rewrite Hrun1. exact Hres.
+      + destruct Hres as (s' & r' & hist' & -> & Hss' & Hrs').
+        destruct (IH s' r' (a + wlen s) hist' (n1 + wlen s) (n2 + 1) i ltac:(lia) Hss' Hrs' (conj Hd Hother))
+          as (fuel2 & Hfin); [intros j Hj; apply Hc2; lia|lia|].
+        exists (fuel1 + fuel2)%nat. rewrite run_add, Hrun1. exact Hfin.
+  Qed.
+
+  (** *** A held ACK: it is released behind the next datagram the receiver sends *)
+  Lemma ack_hold_from_emit : forall k s r a hist n1 n2 i, nb - a <= N.of_nat k ->
+    SS s a 0 -> RS hist r a 0 -> one_hold f_rs i -> clean_from f_sr n1 -> n2 <= i ->
+    exists fuel, FinalR (run fuel (emit_state s r a n1 n2 0)) /\
+      (s_phase (p_s (run fuel (emit_state s r a n1 n2 0))) = SDone OutOk \/
+       ch_n (p_rs (run fuel (emit_state s r a n1 n2 0))) = i + 1).
+  Proof.
+    intros k. induction k as [|k IH]; intros s r a hist n1 n2 i Hk Hss Hrs [Hd Hother] Hc1 Hi;
+      pose proof (SS_len _ _ _ Hss) as (Ha & Hlen & Hpos); [lia|].
+    rewrite emit_clean by (intros j Hj; apply Hc1; lia).
+    assert (Hrs0 : RS hist r (a + 0) 0) by (replace (a + 0) with a by lia; exact Hrs).
+    unfold sync_state. set (m := wlen s) in *. pose proof Hwf as (_ & _ & Hw).
+    destruct (N.eq_dec i n2) as [->|Hne].
+    - (* this round's ACK is the one that is held *)
+      destruct (half_a s r a 0 0 O hist (n1 + m) n2 [] (Some (ack_dgram (a + m))) Hss Hrs0 ltac:(lia))
+        as (s1 & r1 & Hrun1 & Hss1 & Hl1 & Hfin1).
+      { cbn [repeat app]. apply chan_puts_hold. exact Hd. }
+      fold m in Hrun1, Hfin1, Hl1. cbn [repeat] in Hrun1 |- *.
+      destruct (N.eqb_spec (a + m) nb) as [Hlast|Hnot].
+      + (* it was the last ACK of the transfer and nothing will ever release it *)
+        exists (N.to_nat m + 0)%nat. rewrite Hrun1. cbn [p_r p_s p_rs ch_n]. split; [exact Hfin1|right; reflexivity].
+      + destruct Hfin1 as [hist1 Hrs1].
+        destruct (send_retx s1 a 0 Hss1 one_retry) as (s2 & out & E2 & Hss2 & Hl2 & Hout2).
+        replace (a + m) with (a + m + 0) in Hrs1 by lia.
+        destruct (drain_out_seq (N.to_nat m) (a + 1) hist1 r1 (a + m + 0) 0 s2 [] None (n1 + m + m)
+                    (mk_chan [] (Some (ack_dgram (a + m))) (n2 + 1)) ltac:(replace (a + m + 0) with (a + m) in * by lia; exact Hrs1))
+          as (r2 & hist2 & Hrun3 & Hrs2).
+        { intros j Hj. lia. }
+        rewrite app_nil_r in Hrun3. change (0 =? 0) with true in Hrun3. cbv iota in Hrun3.
+        replace (a + m + 0) with (a + m) in * by lia.
+        (* the first repeated ACK releases the held one *)
+        assert (Hrep : repeat (ack_dgram (a + m)) (N.to_nat m) = ack_dgram (a + m) :: repeat (ack_dgram (a + m)) (N.to_nat m - 1)).
+        { replace (N.to_nat m) with (S (N.to_nat m - 1)) at 1 by lia. reflexivity. }
+        rewrite Hrep in Hrun3. rewrite chan_puts_release in Hrun3 by (intros j Hj; apply Hother; lia).
+        cbn [app] in Hrun3. rewrite lenN_cons in Hrun3. unfold lenN in Hrun3. rewrite repeat_length in Hrun3.
+        assert (Hm2 : wlen s2 = m) by (rewrite Hl2; exact Hl1).
+        destruct (send_ack_window s2 a (0 + 1) Hss2) as (s3 & out3 & E3 & Hres3). rewrite Hm2 in E3, Hres3.
+        destruct (N.eqb_spec (a + m) nb) as [|_]; [contradiction|]. destruct Hres3 as [Hss3 Hout3].
+        pose proof (SS_len _ _ _ Hss3) as (_ & _ & Hpos3).
+        destruct (perfect_from_sync k s3 r2 (a + m) 0 0 (S (N.to_nat m - 1)) hist2 (n1 + m + m + wlen s3)
+                    (n2 + 1 + (N.of_nat (N.to_nat m - 1) + 1))
+                    ltac:(lia) Hss3 ltac:(replace (a + m + 0) with (a + m) by lia; exact Hrs2) ltac:(lia))
+          as (fuel4 & Hfin4).
+        { intros j Hj. apply Hc1. lia. }
+        { intros j Hj. apply Hother. lia. }
+        exists (N.to_nat m + 0 + 1 + N.to_nat m + 1 + fuel4)%nat.
+        assert (Hrun : run (N.to_nat m + 0 + 1 + N.to_nat m + 1)
+                         (mk_pair s r (mk_chan (datas (a + 1) (N.to_nat m)) None (n1 + m)) (mk_chan [] None n2)) =
+                       sync_state s3 r2 (a + m) (n1 + m + m + wlen s3) (n2 + 1 + (N.of_nat (N.to_nat m - 1) + 1)) (S (N.to_nat m - 1))).
+        { rewrite (run_add (N.to_nat m + 0 + 1 + N.to_nat m) 1), (run_add (N.to_nat m + 0 + 1) (N.to_nat m)),
+                  (run_add (N.to_nat m + 0) 1), Hrun1.
+          cbn [pair_run]. rewrite step_tmo by apply Hss1. rewrite E2. cbn [fst snd]. rewrite Hout2, Hl1.
+          rewrite chan_puts_clean by (intros j Hj; apply Hc1; lia). cbn [app]. unfold lenN. rewrite datas_length, N2Nat.id.
+          rewrite Hrun3. rewrite step_send by apply Hss2. rewrite E3. cbn [fst snd]. rewrite Hout3.
+          rewrite chan_puts_clean by (intros j Hj; apply Hc1; lia). cbn [app]. unfold lenN. rewrite datas_length, N2Nat.id.
+          reflexivity. }
+        rewrite (run_add (N.to_nat m + 0 + 1 + N.to_nat m + 1) fuel4), Hrun.
+        destruct Hfin4 as (Hf1 & Hf2 & Hf3). split; [split; assumption|left; exact Hf3].
+    - destruct (round_gen s r a 0 0 O hist (n1 + m) n2 Hss Hrs0 ltac:(lia) ltac:(apply Hother; lia))
+        as (fuel1 & p' & Hrun1 & Hres). fold m in Hres. unfold sync_state in Hrun1. fold m in Hrun1.
+      destruct (N.eqb_spec (a + m) nb) as [Hlast|Hnot].
+      + exists fuel1. rewrite Hrun1. destruct Hres as (Hf1 & Hf2 & Hf3). split; [split; assumption|left; exact Hf3].
+      + destruct Hres as (s' & r' & hist' & -> & Hss' & Hrs').
+        destruct (IH s' r' (a + m) hist' (n1 + m) (n2 + 1) i ltac:(lia) Hss' Hrs' (conj Hd Hother))
+          as (fuel2 & Hfin); [intros j Hj; apply Hc1; lia|lia|].
+        exists (fuel1 + fuel2)%nat. rewrite run_add, Hrun1. exact Hfin.
+  Qed.
   End Pair.
 
   (** * The theorems *)
@@ -1084,13 +1412,47 @@ Section Live.
     - apply single_one_dup.
     - apply nil_clean.
   Qed.
+
+  Lemma single_one_hold : forall i, one_hold [(i, NfHold)] i.
+  Proof.
+    intros i. split; cbn [fault_at]; [rewrite N.eqb_refl; reflexivity|].
+    intros k Hk. destruct (N.eqb_spec i k); [congruence|reflexivity].
+  Qed.
+
+  (** Any one DATA datagram overtaken by its successor (or, the last of a window, by the
+      retransmission): both sides complete, the file is exact. *)
+  Theorem cosim_data_hold : forall i, exists fuel,
+    let p := pair_run sc rc [(i, NfHold)] [] fuel (pair_init sc rc [(i, NfHold)] F) in
+    r_phase (p_r p) = RDone OutOk /\ written_bytes (w_file (r_w (p_r p))) = F /\ s_phase (p_s p) = SDone OutOk.
+  Proof.
+    intros i. destruct (init_emit [(i, NfHold)]) as (s0 & -> & Hss).
+    apply (data_hold_from_emit [(i, NfHold)] [] (N.to_nat nb) s0 (recv_init rc) 0 [] 0 0 i); try assumption; try lia.
+    - exact recv_init_RS.
+    - apply single_one_hold.
+    - apply nil_clean.
+  Qed.
+
+  (** Any one ACK held back until the receiver sends again: the receiver completes with the exact
+      file; so does the sender, unless the held ACK was the last datagram of the transfer. *)
+  Theorem cosim_ack_hold : forall i, exists fuel,
+    let p := pair_run sc rc [] [(i, NfHold)] fuel (pair_init sc rc [] F) in
+    r_phase (p_r p) = RDone OutOk /\ written_bytes (w_file (r_w (p_r p))) = F /\
+    (s_phase (p_s p) = SDone OutOk \/ ch_n (p_rs p) = i + 1).
+  Proof.
+    intros i. destruct (init_emit []) as (s0 & -> & Hss).
+    destruct (ack_hold_from_emit [] [(i, NfHold)] (N.to_nat nb) s0 (recv_init rc) 0 [] 0 0 i) as (fuel & [H1 H2] & H3);
+      try assumption; try lia.
+    - exact recv_init_RS.
+    - apply single_one_hold.
+    - apply nil_clean.
+    - exists fuel. cbv zeta. split; [exact H1|]. split; [exact H2|exact H3].
+  Qed.
 End Live.
 
-(** The instances for a lost and for a repeated datagram of the single-fault statement of
-    Props/C04.v (receiver side). *)
-Theorem single_loss_or_repeat_statement :
+(** The single-fault statement of Props/C04.v (receiver side), for every kind of fault of the
+    network model: delivered, lost, repeated, held back behind its successor. *)
+Theorem single_fault_statement_holds :
   forall (blk ws : N) (F : bytes) (dir : bool) (i : N) (k : fault), 0 < blk -> 1 <= ws <= 65535 ->
-  k = NfDrop \/ k = NfDup ->
   exists fuel,
     let sc := mk_scfg blk ws 1000000000 1 false [] in
     let rc := mk_rcfg blk ws 1000000000 1 true [] in
@@ -1099,10 +1461,18 @@ Theorem single_loss_or_repeat_statement :
     let p := pair_run sc rc f1 f2 fuel (pair_init sc rc f1 F) in
     r_phase (p_r p) = RDone OutOk /\ recv_final_file rc (p_r p) <> None.
 Proof.
-  intros blk ws F dir i k Hb Hw Hk.
+  intros blk ws F dir i k Hb Hw.
   set (sc := mk_scfg blk ws 1000000000 1 false []). set (rc := mk_rcfg blk ws 1000000000 1 true []).
   assert (Hwf : wf_params (s_blk sc) (s_ws sc)) by (split; assumption).
-  destruct Hk as [-> | ->]; destruct dir.
+  assert (Hdel : forall lo, clean_from [(i, NfDeliver)] lo).
+  { intros lo j _. cbn [fault_at]. destruct (i =? j); reflexivity. }
+  destruct k; destruct dir.
+  - destruct (cosim_perfect_gen sc rc F Hwf eq_refl eq_refl eq_refl eq_refl eq_refl eq_refl eq_refl eq_refl
+                [(i, NfDeliver)] [] (Hdel 0) (nil_clean 0)) as (fuel & H1 & _).
+    exists fuel. cbv zeta. split; [exact H1|]. unfold recv_final_file. rewrite H1. discriminate.
+  - destruct (cosim_perfect_gen sc rc F Hwf eq_refl eq_refl eq_refl eq_refl eq_refl eq_refl eq_refl eq_refl
+                [] [(i, NfDeliver)] (nil_clean 0) (Hdel 0)) as (fuel & H1 & _).
+    exists fuel. cbv zeta. split; [exact H1|]. unfold recv_final_file. rewrite H1. discriminate.
   - destruct (cosim_data_drop sc rc F Hwf eq_refl eq_refl eq_refl eq_refl eq_refl eq_refl eq_refl eq_refl i) as (fuel & H1 & _).
     exists fuel. cbv zeta. split; [exact H1|]. unfold recv_final_file. rewrite H1. discriminate.
   - destruct (cosim_ack_drop sc rc F Hwf eq_refl eq_refl eq_refl eq_refl eq_refl eq_refl eq_refl eq_refl i) as (fuel & H1 & _).
@@ -1110,5 +1480,9 @@ Proof.
   - destruct (cosim_data_dup sc rc F Hwf eq_refl eq_refl eq_refl eq_refl eq_refl eq_refl eq_refl eq_refl i) as (fuel & H1 & _).
     exists fuel. cbv zeta. split; [exact H1|]. unfold recv_final_file. rewrite H1. discriminate.
   - destruct (cosim_ack_dup sc rc F Hwf eq_refl eq_refl eq_refl eq_refl eq_refl eq_refl eq_refl eq_refl i) as (fuel & H1 & _).
+    exists fuel. cbv zeta. split; [exact H1|]. unfold recv_final_file. rewrite H1. discriminate.
+  - destruct (cosim_data_hold sc rc F Hwf eq_refl eq_refl eq_refl eq_refl eq_refl eq_refl eq_refl eq_refl i) as (fuel & H1 & _).
+    exists fuel. cbv zeta. split; [exact H1|]. unfold recv_final_file. rewrite H1. discriminate.
+  - destruct (cosim_ack_hold sc rc F Hwf eq_refl eq_refl eq_refl eq_refl eq_refl eq_refl eq_refl eq_refl i) as (fuel & H1 & _).
     exists fuel. cbv zeta. split; [exact H1|]. unfold recv_final_file. rewrite H1. discriminate.
 Qed.
